@@ -7,7 +7,7 @@ from __future__ import annotations
 
 from .absint import TOP, Evaluator, Obj, Sym, Text, Unmodelled, xr_mapping_arg
 from .registry import parse_signature
-from .xmodel import COMMON_MODELS, dimsym, make_da, make_grid
+from .xmodel import COMMON_MODELS, bind_by_position, dimsym, make_da, make_grid
 
 
 def text_to_str(t):
@@ -177,14 +177,12 @@ def apply_models(record_rechunk=True):
     m["grid_ufunc:_GridUFuncSignature"] = m_sig_ctor
 
     def m_map(ev, args, kw, node):
-        b = dict(zip(["func", "original_args", "grid", "in_core_dims", "boundary_width_real_axes", "out_dtypes"], args))
-        b.update(kw)
+        b = bind_by_position(ev, "grid_ufunc:_map_func_over_core_dims", ["func", "original_args", "grid", "in_core_dims", "boundary_width_real_axes", "out_dtypes"], args, kw)
         ev.events.append(("map_func_over_core_dims", b, node))
         return Obj("func", "mapped_func", (), {"wraps": b.get("func")})
 
     def m_rechunk(ev, args, kw, node):
-        b = dict(zip(["padded_args", "original_args", "boundary_width_real_axes", "grid"], args))
-        b.update(kw)
+        b = bind_by_position(ev, "grid_ufunc:_rechunk_to_merge_in_boundary_chunks", ["padded_args", "original_args", "boundary_width_real_axes", "grid"], args, kw)
         ev.events.append(("rechunk", b, node))
         pa = b.get("padded_args")
         return [p.with_eff(("RECHUNK",)) if isinstance(p, Obj) else p for p in pa] if isinstance(pa, list) else TOP
